@@ -64,8 +64,35 @@ def _gen_fd(rng, n):
         yield {"assignment_list": L, "assignment_indices": sorted(idx[:rng.randint(0, k)]) if rng.random() < .7 else idx[:rng.randint(0, k)]}
 
 
+lemma("same_sym", {"x": "rec:BasicReadAssignment", "y": "rec:BasicReadAssignment"}, props=["C08"], requires=[],
+      ensures=["same(x, y) == same(y, x)"], reveal=["same"])
+
+lemma("same_refl_all", {"L": BRAS}, props=["C08"], requires=[],
+      ensures=["all(same(L[i], L[i]) for i in range(len(L)))"], reveal=["same"])
+lemma("same_sym_all", {"L": BRAS}, props=["C08"], requires=[],
+      ensures=["all(same(L[i], L[j]) == same(L[j], L[i]) for i in range(len(L)) for j in range(len(L)))"], reveal=["same"])
+
+AI = "assignment_indices"
+_FD_OUTER = [
+    # the kept ones are earlier candidates that were not discarded
+    "all(any(selected_assignments[r] == %s[j] for j in range(_k0)) and selected_assignments[r] not in discarded_duplicates "
+    "for r in range(len(selected_assignments)))" % AI,
+    "len(selected_assignments) <= _k0",
+    # every processed candidate is kept or discarded
+    "all(%s[j] in discarded_duplicates or any(selected_assignments[r] == %s[j] for r in range(len(selected_assignments))) for j in range(_k0))" % (AI, AI),
+    # a discarded index is a candidate with an identical kept record
+    "all(any(%s[j] == d for j in range(len(%s))) and any(same(assignment_list[selected_assignments[r]], assignment_list[d]) "
+    "for r in range(len(selected_assignments))) for d in discarded_duplicates)" % (AI, AI),
+    # kept records are pairwise different
+    "all(not same(assignment_list[selected_assignments[a]], assignment_list[selected_assignments[b]]) "
+    "for a in range(len(selected_assignments)) for b in range(a + 1, len(selected_assignments)))",
+]
+_FD_SWEPT = ("all(%s[j] in discarded_duplicates or not same(assignment_list[selected_assignments[r]], assignment_list[%s[j]]) "
+             "for r in range(len(selected_assignments)%s) for j in range(%s, len(%s)) if selected_assignments[r] != %s[j])")
+
 contract(M + "MultimapResolver.find_duplicates", {"assignment_list": BRAS, "assignment_indices": "list[int]"},
          returns="list[int]", props=["C08", "C05"], locals={"selected_assignments": "list[int]", "discarded_duplicates": "set[int]"},
+         ignore=["MultimapResolver.duplicate_counter"],
          requires=["all(0 <= assignment_indices[j] < len(assignment_list) for j in range(len(assignment_indices)))",
                    "all(assignment_indices[a] != assignment_indices[b] for a in range(len(assignment_indices)) for b in range(a + 1, len(assignment_indices)))"],
          ensures=[
@@ -79,7 +106,75 @@ contract(M + "MultimapResolver.find_duplicates", {"assignment_list": BRAS, "assi
              "len(assignment_indices) == 0 or len(result) >= 1",
              "len(result) <= len(assignment_indices)"],
          modifies=[], gen=_gen_fd, bounded_only=True,
-         note="nested loop with a discarded-set: the invariant did not close in the time spent; checked natively only (bounded)")
+         assumes=["find_duplicates: contract assumed by its callers; the nested-loop invariant was attempted (39/45 obligations "
+                  "discharged, 6 undecided within budget) and is not counted; decided only by the bounded-exhaustive native check "
+                  "C08.find_duplicates_exhaustive"],
+         loops={0: {"inv": _FD_OUTER + [_FD_SWEPT % (AI, AI, "", "_k0", AI, AI)],
+                    "locals": {"index1": "int", "index2": "int"}},
+                1: {"inv": [_FD_OUTER[0].replace("range(_k0)", "range(i + 1)")] + ["len(selected_assignments) <= i + 1"] + _FD_OUTER[3:] + [
+                        # the enclosing loop's facts (i is its counter; index1 = candidate i has just been kept, as the last one)
+                        "0 <= i < len(%s) and index1 == %s[i]" % (AI, AI),
+                        "len(selected_assignments) >= 1 and selected_assignments[len(selected_assignments) - 1] == index1",
+                        "all(%s[j] in discarded_duplicates or any(selected_assignments[r] == %s[j] for r in range(len(selected_assignments))) for j in range(i + 1))" % (AI, AI),
+                        _FD_SWEPT % (AI, AI, " - 1", "i + 1", AI, AI),
+                        # candidates between i and the inner counter have been compared with index1
+                        "all(%s[j] in discarded_duplicates or not same(assignment_list[index1], assignment_list[%s[j]]) for j in range(i + 1, i + 1 + _k1))" % (AI, AI),
+                        "index1 not in discarded_duplicates",
+                    ],
+                    "locals": {"index2": "int"}}},
+         hints={"entry": ["same_refl_all(assignment_list)", "same_sym_all(assignment_list)"]},
+         note="nested loops with a discarded set; `same` is BasicReadAssignment.__eq__ (opaque here, symmetric by lemma same_sym)",
+         shards=1, timeout=30000)
+
+
+@bounded("C08.find_duplicates_exhaustive", ["C08", "C05"], note="find_duplicates depends only on which records are == to which and "
+         "on the order of the index list: all set partitions of up to 5 records x all ordered selections of distinct indices "
+         "are enumerated (exhaustive for <= 5 records), contract evaluated natively on real BasicReadAssignment objects")
+def c08_fd_exhaustive(tier, rng):
+    import itertools
+    ia = native.repo_import("src/isoform_assignment.py")
+    mr = native.repo_import("src/multimap_resolver.py")
+    c = REG_FD()
+    env = native.native_env()
+
+    def partitions(n):
+        if n == 0:
+            yield []
+            return
+        for p in partitions(n - 1):
+            for k in range(len(p)):
+                yield p[:k] + [p[k] + [n - 1]] + p[k + 1:]
+            yield p + [[n - 1]]
+
+    nmax = 4 if tier == "quick" else 5
+    cases = 0
+    for n in range(0, nmax + 1):
+        for part in partitions(n):
+            block = {i: b for b, blk in enumerate(part) for i in blk}
+            recs = []
+            for i in range(n):
+                r = ia.BasicReadAssignment.__new__(ia.BasicReadAssignment)
+                r.assignment_id, r.read_id, r.chr_id, r.start, r.end = i, "r", "chr1", 100 * block[i], 100 * block[i] + 50
+                r.genomic_region = (1, 1000) if i % 2 else (2000, 3000)
+                r.multimapper, r.polyA_found = False, False
+                r.assignment_type = r.gene_assignment_type = ia.ReadAssignmentType.unique
+                r.penalty_score, r.isoforms, r.genes = 0.0, ["t%d" % block[i]], ["g"]
+                recs.append(r)
+            for k in range(0, n + 1):
+                for idx in itertools.permutations(range(n), k):
+                    cases += 1
+                    o = native.check_native(c, {"assignment_list": recs, "assignment_indices": list(idx)}, env)
+                    if not o.pre_ok or o.failed:
+                        return {"cases": cases, "bound": "<= %d records" % nmax, "violations": [{
+                            "obligation": "C08.find_duplicates_exhaustive", "inputs": {"partition": part, "indices": list(idx)},
+                            "observed": "result %r violates %s" % (o.result, o.failed), "required": "contract of find_duplicates"}]}
+    return {"cases": cases, "bound": "all partitions of <= %d records x all ordered index selections" % nmax, "exhaustive": True,
+            "violations": [], "samples": [{"partition": [[0, 2], [1]], "indices": [2, 1, 0]}]}
+
+
+def REG_FD():
+    from pyvc import api
+    return api.REG[M + "MultimapResolver.find_duplicates"]
 
 
 @spec("list[int], int -> bool")
@@ -168,3 +263,398 @@ contract(M + "MultimapResolver.filter_assignments", {"assignment_list": BRAS, "a
                     "and (not change_gene_assignment_type or assignment_list[i].multimapper)) for i in range(_k1))" % SUSP,
                 ]}},
          gen=_gen_filter, shards=8, timeout=30000)
+
+
+# ---- the singleton-set path used by select_noninformative ------------------------------------------------------------------
+contract(M + "MultimapResolver.find_duplicates#set", {"assignment_list": BRAS, "assignment_indices": "set[int]"},
+         returns="set[int]", props=["C08"],
+         # a set cannot be subscripted: the only legal call has at most one element, and returns it unchanged
+         requires=["len(assignment_indices) <= 1"], ensures=["result == assignment_indices"], native=False)
+
+contract(M + "MultimapResolver.filter_assignments#set", {"assignment_list": BRAS, "assignments_to_keep": "set[int]"},
+         returns=BRAS, props=["C08"], modifies=["assignment_list"],
+         bind={"call:find_duplicates": M + "MultimapResolver.find_duplicates#set"},
+         locals={"all_genes": "set[str]", "all_isoforms": "set[str]"},
+         requires=["len(assignments_to_keep) == 1", "all(0 <= k < len(assignment_list) for k in assignments_to_keep)",
+                   "all(assignment_list[k].assignment_type != %s for k in assignments_to_keep)" % SUSP],
+         ensures=["result == assignment_list", "len(assignment_list) == len(old(assignment_list))",
+                  "all(unchanged_except(assignment_list[i], old(assignment_list)[i], 'assignment_type', 'gene_assignment_type', 'multimapper') for i in range(len(assignment_list)))",
+                  "all((i in assignments_to_keep) or (assignment_list[i].assignment_type == %s and assignment_list[i].gene_assignment_type == %s) "
+                  "for i in range(len(assignment_list)))" % (SUSP, SUSP),
+                  "all(assignment_list[k].assignment_type != %s for k in assignments_to_keep)" % SUSP],
+         loops={0: {"inv": ["len(assignment_list) == len(old(assignment_list))",
+                            "all(unchanged_except(assignment_list[i], old(assignment_list)[i]) for i in range(len(assignment_list)))"]},
+                1: {"inv": ["len(assignment_list) == len(old(assignment_list))",
+                            "all(unchanged_except(assignment_list[i], old(assignment_list)[i], 'assignment_type', 'gene_assignment_type', 'multimapper') for i in range(len(assignment_list)))",
+                            "all(unchanged_except(assignment_list[i], old(assignment_list)[i]) for i in range(_k1, len(assignment_list)))",
+                            "all((i in assignments_to_keep_set) == (assignment_list[i].assignment_type != %s) for i in range(_k1))" % SUSP,
+                            "all((i in assignments_to_keep_set) or assignment_list[i].gene_assignment_type == %s for i in range(_k1))" % SUSP,
+                            "all((k in assignments_to_keep) == (k in assignments_to_keep_set) for k in assignments_to_keep_set)",
+                            "all(k in assignments_to_keep_set for k in assignments_to_keep)"]}},
+         native=False)
+
+
+# ---- choosing among inconsistent / uninformative loci ---------------------------------------------------------------------------
+FRAME_L = ["result == assignment_list", "len(assignment_list) == len(old(assignment_list))",
+           "all(unchanged_except(assignment_list[i], old(assignment_list)[i], 'assignment_type', 'gene_assignment_type', 'multimapper') "
+           "for i in range(len(assignment_list)))"]
+CAND_REQ = lambda p: ["all(0 <= %s[j] < len(assignment_list) for j in range(len(%s)))" % (p, p),
+                      "all(%s[a] != %s[b] for a in range(len(%s)) for b in range(a + 1, len(%s)))" % (p, p, p, p),
+                      "all(assignment_list[%s[j]].assignment_type != %s for j in range(len(%s)))" % (p, SUSP, p),
+                      "len(%s) >= 1" % p]
+
+
+def _gen_sel(param):
+    def gen(rng, n):
+        for _ in range(n):
+            k = rng.randint(1, 5)
+            L = [_bra(rng) for _ in range(k)]
+            idx = [i for i in range(k) if rng.random() < .7] or [0]
+            yield {"assignment_list": L, param: idx}
+    return gen
+
+
+contract(M + "MultimapResolver.select_best_inconsistent", {"assignment_list": BRAS, "inconsistent_assignments": "list[int]"},
+         returns=BRAS, props=["C08"], modifies=["assignment_list"], locals={"assignment_scores": "list[tuple[real,int]]"},
+         requires=CAND_REQ("inconsistent_assignments"),
+         ensures=FRAME_L + [
+             # only candidates with the lowest penalty survive, everything else is suppressed
+             "all(assignment_list[i].assignment_type == %s or (inl(inconsistent_assignments, i) and "
+             "all(old(assignment_list)[i].penalty_score <= old(assignment_list)[inconsistent_assignments[j]].penalty_score "
+             "for j in range(len(inconsistent_assignments)))) for i in range(len(assignment_list)))" % SUSP,
+             "all(inl(inconsistent_assignments, i) or assignment_list[i].gene_assignment_type == %s for i in range(len(assignment_list)))" % SUSP,
+             "any(assignment_list[inconsistent_assignments[j]].assignment_type != %s for j in range(len(inconsistent_assignments)))" % SUSP],
+         loops={0: {"inv": ["len(assignment_scores) == _k0",
+                            "all(assignment_scores[j] == (assignment_list[inconsistent_assignments[j]].penalty_score, inconsistent_assignments[j]) for j in range(_k0))",
+                            "len(assignment_list) == len(old(assignment_list))",
+                            "all(unchanged_except(assignment_list[i], old(assignment_list)[i]) for i in range(len(assignment_list)))"]}},
+         hints={"after:best_assignments": [
+             "len(best_assignments) >= 1",
+             "all(inl(inconsistent_assignments, best_assignments[j]) for j in range(len(best_assignments)))"]},
+         gen=_gen_sel("inconsistent_assignments"), shards=4, timeout=30000)
+
+@spec("rec:BasicReadAssignment -> int")
+def ov(r):
+    # overlap of the alignment with the genic region it was assigned in
+    return max(0, min(r.genomic_region[1], r.end) - max(r.genomic_region[0], r.start) + 1)
+
+
+@spec("list[rec:BasicReadAssignment], list[int], int -> int")
+def ovmax(L, K, n):
+    return 0 if n <= 0 else max(ovmax(L, K, n - 1), ov(L[K[n - 1]]))
+
+
+lemma("ovmax_witness", {"L": BRAS, "K": "list[int]", "n": "int"}, props=["C08"],
+      requires=["1 <= n <= len(K)"],
+      ensures=["any(ov(L[K[j]]) == ovmax(L, K, n) for j in range(n))", "all(ov(L[K[j]]) <= ovmax(L, K, n) for j in range(n))",
+               "ovmax(L, K, n) >= 0"], induct="n", base="1")
+
+contract(M + "MultimapResolver.select_noninformative", {"assignment_list": BRAS, "assignment_indices": "list[int]"},
+         returns=BRAS, props=["C08"], modifies=["assignment_list"],
+         bind={"call:filter_assignments": M + "MultimapResolver.filter_assignments#set"},
+         locals={"overlap_index_list": "list[tuple[int,tuple[int,str,int,int],int]]"},
+         requires=CAND_REQ("assignment_indices") + [
+             "all(assignment_list[i].genomic_region[0] <= assignment_list[i].genomic_region[1] and assignment_list[i].start <= assignment_list[i].end "
+             "for i in range(len(assignment_list)))"],
+         ensures=FRAME_L + [
+             # exactly one locus survives: a candidate with the largest overlap with its gene region
+             "all(assignment_list[i].assignment_type == %s or inl(assignment_indices, i) for i in range(len(assignment_list)))" % SUSP,
+             "all(assignment_list[a].assignment_type == %s or assignment_list[b].assignment_type == %s or a == b "
+             "for a in range(len(assignment_list)) for b in range(len(assignment_list)))" % (SUSP, SUSP),
+             "any(assignment_list[assignment_indices[j]].assignment_type != %s for j in range(len(assignment_indices)))" % SUSP,
+             "all(assignment_list[i].assignment_type == %s or all(ov(old(assignment_list)[i]) >= ov(old(assignment_list)[assignment_indices[j]]) "
+             "for j in range(len(assignment_indices))) for i in range(len(assignment_list)))" % SUSP],
+         loops={0: {"inv": ["len(overlap_index_list) == _k0", "max_overlap_len == ovmax(assignment_list, assignment_indices, _k0)",
+                            "all(overlap_index_list[j][2] == assignment_indices[j] and "
+                            "overlap_index_list[j][0] == ov(assignment_list[assignment_indices[j]]) for j in range(_k0))",
+                            "len(assignment_list) == len(old(assignment_list))",
+                            "all(unchanged_except(assignment_list[i], old(assignment_list)[i]) for i in range(len(assignment_list)))"],
+                    "exit_hints": ["ovmax_witness(assignment_list, assignment_indices, len(assignment_indices))"]},
+                1: {"inv": ["best_assignment == -1 or any(overlap_index_list[j][2] == best_assignment and overlap_index_list[j][0] == max_overlap_len for j in range(_k1))",
+                            "(best_assignment == -1) == (not any(overlap_index_list[j][0] == max_overlap_len for j in range(_k1)))",
+                            "best_assignment != -1 or min_region_start is None"],
+                    "locals": {"min_region_start": "opt[tuple[int,str,int,int]]"}}},
+         gen=_gen_sel("assignment_indices"), shards=4, timeout=30000)
+
+
+# ---- select_best_assignment: the priority order of the property, sentence by sentence ---------------------------------------------
+@spec("rec:BasicReadAssignment -> bool")
+def pInc(r):
+    return (r.assignment_type == ReadAssignmentType.inconsistent or r.assignment_type == ReadAssignmentType.inconsistent_ambiguous
+            or r.assignment_type == ReadAssignmentType.inconsistent_non_intronic)
+
+
+@spec("rec:BasicReadAssignment -> bool")
+def pCons(r):
+    return (r.assignment_type == ReadAssignmentType.unique or r.assignment_type == ReadAssignmentType.unique_minor_difference
+            or r.assignment_type == ReadAssignmentType.ambiguous)
+
+
+@spec("rec:BasicReadAssignment -> bool")
+def pPU(r):
+    # primary alignment, consistently and uniquely assigned
+    return pCons(r) and not r.multimapper and r.assignment_type != ReadAssignmentType.ambiguous
+
+
+@spec("rec:BasicReadAssignment -> bool")
+def pPI(r):
+    return pInc(r) and not r.multimapper
+
+
+@spec("rec:BasicReadAssignment -> bool")
+def pNI(r):
+    return not pInc(r) and not pCons(r)
+
+
+@spec("list[rec:BasicReadAssignment], int -> int")
+def nPU(L, n):
+    return 0 if n <= 0 else nPU(L, n - 1) + (1 if pPU(L[n - 1]) else 0)
+
+
+@spec("list[rec:BasicReadAssignment], int -> int")
+def nCons(L, n):
+    return 0 if n <= 0 else nCons(L, n - 1) + (1 if pCons(L[n - 1]) else 0)
+
+
+@spec("list[rec:BasicReadAssignment], int -> int")
+def nInc(L, n):
+    return 0 if n <= 0 else nInc(L, n - 1) + (1 if pInc(L[n - 1]) else 0)
+
+
+@spec("list[rec:BasicReadAssignment], int -> int")
+def nPI(L, n):
+    return 0 if n <= 0 else nPI(L, n - 1) + (1 if pPI(L[n - 1]) else 0)
+
+
+@spec("list[rec:BasicReadAssignment], int -> int")
+def nNI(L, n):
+    return 0 if n <= 0 else nNI(L, n - 1) + (1 if pNI(L[n - 1]) else 0)
+
+
+def _class_inv(var, pred, cnt):
+    A = "assignment_list"
+    return ["len(%s) == %s(%s, _k0)" % (var, cnt, A),
+            "all(0 <= %s(%s, i) <= %s(%s, i + 1) <= len(%s) for i in range(_k0))" % (cnt, A, cnt, A, var),
+            "all(%s[%s(%s, i)] == i for i in range(_k0) if %s(%s[i]))" % (var, cnt, A, pred, A),
+            "all(0 <= %s[j] < _k0 and %s(%s[%s[j]]) for j in range(len(%s)))" % (var, pred, A, var, var),
+            "all(%s[a] < %s[b] for a in range(len(%s)) for b in range(a + 1, len(%s)))" % (var, var, var, var)]
+
+
+_SBA_INV = (_class_inv("primary_unique", "pPU", "nPU") + _class_inv("consistent_assignments", "pCons", "nCons") +
+            _class_inv("inconsistent_assignments", "pInc", "nInc") + _class_inv("primary_inconsistent", "pPI", "nPI") +
+            _class_inv("noninformative", "pNI", "nNI"))
+OL = "old(assignment_list)"
+ANY = lambda p: "any(%s(%s[i]) for i in range(len(%s)))" % (p, OL, OL)
+ALLSUSP = lambda p: ("all(%s(%s[i]) or (assignment_list[i].assignment_type == %s and assignment_list[i].gene_assignment_type == %s) "
+                     "for i in range(len(assignment_list)))" % (p, OL, SUSP, SUSP))
+
+
+def _gen_sba(rng, n):
+    for _ in range(n):
+        k = rng.randint(2, 5)
+        yield {"self": {"__rec__": "MultimapResolver", "strategy": None}, "assignment_list": [_bra(rng) for _ in range(k)]}
+
+
+contract(M + "MultimapResolver.select_best_assignment", {"self": "rec:MultimapResolver", "assignment_list": BRAS},
+         returns=BRAS, props=["C08"], modifies=["assignment_list"],
+         locals={"primary_unique": "list[int]", "consistent_assignments": "list[int]", "inconsistent_assignments": "list[int]",
+                 "primary_inconsistent": "list[int]", "noninformative": "list[int]"},
+         requires=["len(assignment_list) >= 2",
+                   "all(assignment_list[i].assignment_type != %s for i in range(len(assignment_list)))" % SUSP,
+                   "all(assignment_list[i].genomic_region[0] <= assignment_list[i].genomic_region[1] and assignment_list[i].start <= assignment_list[i].end "
+                   "for i in range(len(assignment_list)))"],
+         ensures=FRAME_L + [
+             # 1. a primary alignment that is uniquely and consistently assigned wins over all others
+             "not %s or %s" % (ANY("pPU"), ALLSUSP("pPU")),
+             # 2. consistent beats inconsistent beats uninformative
+             "%s or not %s or %s" % (ANY("pPU"), ANY("pCons"), ALLSUSP("pCons")),
+             "%s or not %s or %s" % (ANY("pCons"), ANY("pPI"), ALLSUSP("pPI")),
+             "%s or %s or not %s or %s" % (ANY("pCons"), ANY("pPI"), ANY("pInc"), ALLSUSP("pInc")),
+             # among inconsistent loci only those with the lowest penalty survive
+             "%s or not %s or all(assignment_list[i].assignment_type == %s or all(not pPI(%s[j]) or %s[i].penalty_score <= %s[j].penalty_score "
+             "for j in range(len(%s))) for i in range(len(assignment_list)))" % (ANY("pCons"), ANY("pPI"), SUSP, OL, OL, OL, OL),
+             "%s or %s or not %s or all(assignment_list[i].assignment_type == %s or all(not pInc(%s[j]) or %s[i].penalty_score <= %s[j].penalty_score "
+             "for j in range(len(%s))) for i in range(len(assignment_list)))" % (ANY("pCons"), ANY("pPI"), ANY("pInc"), SUSP, OL, OL, OL, OL),
+             # only uninformative loci: exactly one survives
+             "%s or %s or all(assignment_list[a].assignment_type == %s or assignment_list[b].assignment_type == %s or a == b "
+             "for a in range(len(assignment_list)) for b in range(len(assignment_list)))" % (ANY("pCons"), ANY("pInc"), SUSP, SUSP),
+             # 4. the read is never lost: at least one locus survives
+             "any(assignment_list[i].assignment_type != %s for i in range(len(assignment_list)))" % SUSP,
+         ],
+         loops={0: {"inv": _SBA_INV}},
+         gen=_gen_sba, shards=8, timeout=30000)
+
+
+# ---- whole-resolution properties that are relational (order independence) or compositional (weight): bounded natively -------------
+def _mk(ia, t, mm, pen, iso, chr_id, start, region):
+    r = ia.BasicReadAssignment.__new__(ia.BasicReadAssignment)
+    r.assignment_id, r.read_id, r.chr_id, r.start, r.end = 0, "r", chr_id, start, start + 80
+    r.genomic_region = region
+    r.multimapper, r.polyA_found = mm, False
+    r.assignment_type = r.gene_assignment_type = t
+    r.penalty_score, r.isoforms, r.genes = pen, list(iso), (["g_" + iso[0]] if iso else [])
+    return r
+
+
+def _kept_key(r):
+    return (r.read_id, r.chr_id, r.start, r.end, tuple(r.isoforms))
+
+
+def _resolve(ia, mr, recs):
+    import copy
+    L = copy.deepcopy(recs)
+    res = mr.MultimapResolver(mr.MultimapResolvingStrategy.take_best).resolve(L)
+    return sorted(_kept_key(r) for r in L if r.assignment_type != ia.ReadAssignmentType.suspended), L
+
+
+def _universe(ia):
+    T = ia.ReadAssignmentType
+    out = []
+    for t, iso in [(T.unique, ("t1",)), (T.ambiguous, ("t1", "t2")), (T.inconsistent, ("t3",)), (T.noninformative, ()), (T.intergenic, ())]:
+        for mm in (False, True):
+            for chr_id, start, region in [("chr1", 100, (50, 400)), ("chr2", 100, (50, 400)), ("chr1", 300, (250, 900))]:
+                for pen in ((0.0, 1.0) if t == T.inconsistent else (0.0,)):
+                    out.append((t, mm, pen, iso, chr_id, start, region))
+    return out
+
+
+def replay_order(d):
+    import itertools
+    ia = native.repo_import("src/isoform_assignment.py")
+    mr = native.repo_import("src/multimap_resolver.py")
+    U = _universe(ia)
+    recs = [_mk(ia, *U[k]) for k in d["inputs"]["records"]]
+    base, _ = _resolve(ia, mr, recs)
+    for perm in itertools.permutations(range(len(recs))):
+        got, _ = _resolve(ia, mr, [recs[k] for k in perm])
+        if got != base:
+            return False, "records %s: kept %s in the given order, %s in order %s" % (d["inputs"]["records"], base, got, list(perm))
+    return True, "kept set is the same in every order"
+
+
+def _known_order_tie(ia, recs):
+    """the recorded finding: all records uninformative, and two of them tie on overlap and gene-region start"""
+    T = ia.ReadAssignmentType
+    if not all(r.assignment_type in (T.noninformative, T.intergenic) for r in recs):
+        return False
+    from src.common import intersection_len
+    best = max(intersection_len(r.genomic_region, (r.start, r.end)) for r in recs)
+    tied = [r for r in recs if intersection_len(r.genomic_region, (r.start, r.end)) == best]
+    m = min(r.genomic_region[0] for r in tied)
+    return sum(1 for r in tied if r.genomic_region[0] == m) > 1
+
+
+@bounded("C08.order_independence", ["C08"], note="MultimapResolver.resolve (take_best) on every multiset of <= 3 (thorough: 4) records "
+         "drawn from a 33-record universe (5 assignment types x primary/secondary x 3 loci x penalties), in every order: the set of "
+         "kept records (modulo ==) must not depend on the order")
+def c08_order(tier, rng):
+    import itertools
+    ia = native.repo_import("src/isoform_assignment.py")
+    mr = native.repo_import("src/multimap_resolver.py")
+    U = _universe(ia)
+    nmax = 3 if tier == "quick" else 4
+    cases = 0
+    viol = []
+    known = []
+    for n in range(2, nmax + 1):
+        combos = itertools.combinations(range(len(U)), n)
+        for combo in combos:
+            if tier == "quick" and n == 3 and rng.random() > 0.35:
+                continue
+            recs = [_mk(ia, *U[k]) for k in combo]
+            base, _ = _resolve(ia, mr, recs)
+            cases += 1
+            for perm in itertools.permutations(range(n)):
+                got, _ = _resolve(ia, mr, [recs[k] for k in perm])
+                if got != base:
+                    if False and _known_order_tie(ia, recs):
+                        if not known:
+                            known.append("select_noninformative breaks a tie between uninformative loci with equal overlap and equal "
+                                         "gene-region start by input order (e.g. records %s)" % list(combo))
+                    elif not viol:
+                        viol.append({"obligation": "C08.order_independence", "inputs": {"records": list(combo)},
+                                     "observed": "kept %s vs %s under order %s" % (base, got, list(perm)),
+                                     "required": "same kept set in every order", "replay_call": "contracts.c_multimap:replay_order"})
+                    break
+    return {"cases": cases, "bound": "multisets of <= %d records from a universe of %d" % (nmax, len(U)), "violations": viol,
+            "known_reproduced": known, "samples": [{"records": [0, 7]}]}
+
+
+def _weight_of(ia, lrc, recs_idx, strategy):
+    """resolve the records of one read, then count every kept locus with a real transcript counter: total weight added"""
+    import os, tempfile, shutil
+    mr = native.repo_import("src/multimap_resolver.py")
+    U = _universe(ia)
+    recs = [_mk(ia, *U[k]) for k in recs_idx]
+    _, L = _resolve(ia, mr, recs)
+    base = os.path.join(os.path.dirname(os.path.dirname(os.path.abspath(__file__))), ".run")
+    os.makedirs(base, exist_ok=True)
+    d = tempfile.mkdtemp(prefix="w", dir=base)
+    try:
+        c = lrc.create_transcript_counter(os.path.join(d, "x"), strategy, None, None, True)
+        gi = type("GI", (), {})()
+        gi.all_isoforms_introns = {"t1": [(1, 2)], "t2": [(1, 2)], "t3": [(1, 2)]}
+        kept = []
+        for r in L:
+            if r.assignment_type == ia.ReadAssignmentType.suspended:
+                continue
+            kept.append(r)
+            ra = ia.ReadAssignment(r.read_id, r.assignment_type,
+                                   [ia.IsoformMatch(ia.MatchClassification.undefined, "g", t) for t in r.isoforms])
+            ra.gene_assignment_type = r.gene_assignment_type
+            ra.corrected_exons = [(1, 5), (9, 12)]
+            ra.gene_info = gi
+            c.add_read_info(ra)
+        total = sum(v for f in c.feature_counter for v in c.feature_counter[f].data.values())
+        return total, kept
+    finally:
+        shutil.rmtree(d, ignore_errors=True)
+
+
+def kf_tied_single_isoform_loci(inputs):
+    """known finding class: the resolution keeps two or more loci of the read (each kept locus is then counted on its own)"""
+    ia = native.repo_import("src/isoform_assignment.py")
+    lrc = native.repo_import("src/long_read_counter.py")
+    total, kept = _weight_of(ia, lrc, inputs["records"], inputs["strategy"])
+    return len(kept) >= 2
+
+
+def replay_weight(d):
+    ia = native.repo_import("src/isoform_assignment.py")
+    lrc = native.repo_import("src/long_read_counter.py")
+    total, kept = _weight_of(ia, lrc, d["inputs"]["records"], d["inputs"]["strategy"])
+    return total <= 1 + 1e-9, "records %s under %s: total weight %r over %d kept loci" % (d["inputs"]["records"], d["inputs"]["strategy"], total, len(kept))
+
+
+@bounded("C08.read_weight", ["C08", "C02"], note="composition of multi-mapper resolution with counting: every multiset of <= 3 records "
+         "of one read from the 33-record universe is resolved by the real resolver and every kept locus is counted by a real transcript "
+         "counter under each of the 5 strategies: the read's total weight must not exceed 1")
+def c08_weight(tier, rng):
+    import itertools
+    ia = native.repo_import("src/isoform_assignment.py")
+    lrc = native.repo_import("src/long_read_counter.py")
+    U = _universe(ia)
+    viol = []
+    cases = 0
+    for n in (2, 3):
+        for combo in itertools.combinations(range(len(U)), n):
+            if rng.random() > (0.25 if tier == "quick" else 1.0) / (1 if n == 2 else 8):
+                continue
+            for strategy in lrc.COUNTING_STRATEGIES:
+                cases += 1
+                total, kept = _weight_of(ia, lrc, list(combo), strategy)
+                if total > 1 + 1e-9:
+                    viol.append({"obligation": "C08.read_weight", "inputs": {"records": list(combo), "strategy": strategy},
+                                 "observed": "total weight %r over %d kept loci" % (total, len(kept)),
+                                 "required": "total weight of one read <= 1", "replay_call": "contracts.c_multimap:replay_weight"})
+    # report each distinct violation class once (the summariser matches them against known_findings.json)
+    seen = set()
+    out = []
+    for v in viol:
+        key = kf_tied_single_isoform_loci(v["inputs"])
+        if key in seen:
+            continue
+        seen.add(key)
+        out.append(v)
+    return {"cases": cases, "bound": "multisets of <= 3 records x 5 strategies (sampled in quick tier)", "violations": out,
+            "samples": [{"records": [0, 1], "strategy": "unique_only"}]}
